@@ -20,7 +20,7 @@ class U(NodeMixin):
         self.parent = parent
 
 
-KEYS = ["a", "b", "x_1", "_p", "Z"]
+KEYS = ["a", "depth", "b", "x_1", "_p", "size", "Z"]  # incl. names of read-only NodeMixin properties
 BOOK = ("_NodeMixin__children", "_NodeMixin__parent")
 
 
@@ -44,7 +44,7 @@ def pick_tree(cfg, symbolic_values=True):
     n = nondet_int(1, cfg["N"], "n")
     pv = pick_parent_vector(n)
     parent, children = model_from_pv(pv)
-    layout = nondet_int(0, 5, "attr_layout")  # which nodes get how many attributes, which keys, which value kinds
+    layout = nondet_int(0, 6, "attr_layout")  # which nodes get how many attributes, which keys, which value kinds
     rot, k0, vrot = layout % 3, layout % len(KEYS), layout % 4
     attrs = []
     for i in range(n):
@@ -244,7 +244,7 @@ def import_body(cfg):
 
 # ------------------------------------------------------------------------------------- C11
 
-JVALUES = ["", u"é", " ", "\"\\", "\x00\x1f", 0, -1, 2 ** 63, 1.5, -0.0, 1e-7, 1e22, True, False, None, [1, [2, "x"]], {"k": [None]},
+JVALUES = ["", u"é", " ", "\"\\", "\x00\x1f", 1, True, 1.0, 0, False, 0.0, -1, 2 ** 63, 1.5, -0.0, 1e-7, 1e22, True, False, None, [1, [2, "x"]], {"k": [None]},
            u"line sep ", u"\x85", "a\nb\tc", u"\U0001f600", [], {}, "trailing ", -(2 ** 70), 1e308]
 
 JOPTIONS = [
